@@ -121,7 +121,7 @@ func verifSetupQueue(n int, interference int) (*verifQEnv, *Context) {
 	env.api.Decide = func(c *fakes.APICall) error {
 		if vz.Bool("apiFails") {
 			env.failed++
-			return fakes.ErrorOfKind(vz.Choice("errKind", 3), c.Name)
+			return fakes.ErrorOfKind([]int{0, 1, 2, 4}[vz.Choice("errKind", 4)], c.Name)
 		}
 		return nil
 	}
@@ -213,6 +213,8 @@ func VerifH_C05_L3_admission() {
 	// counter accounting: every applied start holds exactly one slot; failed writes rolled back
 	vz.Observe("counterAfter", env.store.VerifCount("uid1"))
 	vz.Assert(env.store.VerifCount("uid1") == env.c0+applied-env.finishes, "C05/L3/counter-accounting")
+	// a slot that is held without a started Job would keep Enqueue Jobs queued (and Forbid Jobs refused) for ever
+	vz.Assert(env.store.VerifCount("uid1") <= env.c0+applied-env.finishes, "C06/no-slot-held-without-a-started-job")
 	if env.finishes > 0 {
 		vz.Cover("concurrent-finish")
 	}
